@@ -173,14 +173,20 @@ def r_edit(prog, tier):
                 and isinstance(n.ast.value, ast.Constant) and n.ast.value.value is None:
             facts = [x[0] for x in facts_at(cfg, n.id)]
             op = [fa[3].strip("'") for fa in facts if fa[0] == 'cmp' and fa[2] == '==' and fa[3].strip("'") in want]
-            cmpf = [fa for fa in facts if fa[0] == 'cmp' and ('length' in (fa[1], fa[3]))]
+            lenv = [nm2 for nm2 in f.locals for (_, v) in name_defs(f, nm2) if isinstance(v, ast.AST)
+                    and unparse(v) == 'len(trees.terminals(%s))' % f.params[0]]
+            valv = [nm2 for nm2 in f.locals for (_, v) in name_defs(f, nm2) if isinstance(v, ast.AST)
+                    and unparse(v) == "%s['filtervalue']" % f.kwarg]
+            L = lenv[0] if lenv else 'len(trees.terminals(%s))' % f.params[0]
+            V = valv[0] if valv else "%s['filtervalue']" % f.kwarg
+            cmpf = [fa for fa in facts if fa[0] == 'cmp' and set((fa[1], fa[3])) == set((L, V))]
             if op and cmpf:
                 c = cmpf[-1]
                 rel = None
                 if c[2] == '==':
                     rel = '=='
                 elif c[2] == '<':
-                    rel = '<' if c[1] == 'length' else '>'
+                    rel = '<' if c[1] == L else '>'
                 seen[op[0]] = rel
     ok = seen == want
     obs.append(Ob('R-EDIT/FILTER', f.fq, 'lt / gt / eq drop exactly the trees shorter / longer / as long as the value', ok,
@@ -266,7 +272,11 @@ def r_labeledit(prog, tier):
         obs.append(Ob('R-LABELEDIT', f.fq, 'gap index of `%s` is removed unconditionally before the label is rebuilt' % var,
                       g_ok, '`%s.gapindex = ""` on every path from parse to format' % var if g_ok else
                       'some labels keep their gap index', construct='ptb-gap:' + var, line=pn.lineno))
-        c_ok = 'coindex' in edits and any(extra == [('truthy', 'keepcoindex', False)] for (_, extra) in edits['coindex'])
+        kcv = [nm2 for nm2 in f.locals for (_, v) in name_defs(f, nm2) if isinstance(v, ast.AST)
+               and unparse(v) == "'keepcoindex' in %s" % f.kwarg]
+        c_ok = 'coindex' in edits and any(
+            extra in [[('truthy', k, False)] for k in kcv] + [[('haskey', f.kwarg, 'keepcoindex', False)]]
+            for (_, extra) in edits['coindex'])
         obs.append(Ob('R-LABELEDIT', f.fq, 'co-index of `%s` is removed unless keepcoindex is given' % var, c_ok,
                       '`%s.coindex = ""` exactly under `not keepcoindex`' % var if c_ok else
                       'co-index removal is missing or depends on something else than keepcoindex',
@@ -323,8 +333,10 @@ def r_labelfields(prog, tier):
                       'stored by parse_label: %s, read by format_label: %s' % (fld in stored, fld in read),
                       construct='field:' + fld, nontrivial=False, line=ff.node.lineno))
         if fld in stored and fld not in ('gf_separator',):
-            okv = stored[fld] == fld or (fld == 'label' and stored[fld] == pf.params[0])
-            obs.append(Ob('R-LABELFIELDS', 'trees.parse_label', 'component %r holds the part split off under that name' % fld,
+            others = [v for k, v in stored.items() if k != fld and k in LABEL_FIELDS]
+            okv = stored[fld].isidentifier() and stored[fld] not in others and \
+                ((fld == 'label') == (stored[fld] == pf.params[0]))
+            obs.append(Ob('R-LABELFIELDS', 'trees.parse_label', 'component %r is filled from its own variable' % fld,
                           okv, '%s.%s = %s' % (ob, fld, stored[fld]), construct='fieldsrc:' + fld, nontrivial=False,
                           line=pf.node.lineno))
     # the function part is joined with the separator recorded at parse time
@@ -398,8 +410,16 @@ def r_labelsplit(prog, tier):
         obs.append(Ob('R-LABELSPLIT', f.fq, 'rebinding `%s` removes exactly one recorded component' % unparse(n.ast), ok, why,
                       construct='split:' + unparse(n.ast), line=n.lineno))
     # indices must be digits; the search for co-index / gap index uses the formatting separators
+    rets = [n for n in walk_own(f.node) if isinstance(n, ast.Return)]
+    ob = rets[0].value.id if len(rets) == 1 and isinstance(rets[0].value, ast.Name) else None
+    attr_src = {}
+    for n in walk_own(f.node):
+        if isinstance(n, ast.Assign) and isinstance(n.targets[0], ast.Attribute) and ob and unparse(n.targets[0].value) == ob \
+                and isinstance(n.value, ast.Name):
+            attr_src[n.targets[0].attr] = n.value.id
     for (comp, sep) in (('coindex', 'DEFAULT_COINDEX_SEPARATOR'), ('gapindex', 'DEFAULT_GAPPING_SEPARATOR')):
-        defs = [(n, v) for (n, v) in name_defs(f, comp) if isinstance(v, ast.AST) and const_str(v) != '']
+        cvar = attr_src.get(comp, comp)
+        defs = [(n, v) for (n, v) in name_defs(f, cvar) if isinstance(v, ast.AST) and const_str(v) != '']
         ok = False
         if len(defs) == 1:
             facts = [x[0] for x in facts_at(cfg, defs[0][0])]
@@ -413,7 +433,7 @@ def r_labelsplit(prog, tier):
                       'rfind(%s), isdigit()' % sep if ok else 'search or digit test changed', construct='idx:' + comp,
                       line=f.node.lineno))
     # trace test
-    td = [unparse(v) for (_, v) in name_defs(f, 'is_trace') if isinstance(v, ast.AST)]
+    td = [unparse(v) for (_, v) in name_defs(f, attr_src.get('is_trace', 'is_trace')) if isinstance(v, ast.AST)]
     ok = len(td) == 1 and "%s[0] == '*'" % L in td[0] and "%s[-1] == '*'" % L in td[0] and ' and ' in td[0]
     obs.append(Ob('R-LABELSPLIT', f.fq, 'a label is a trace iff its category starts and ends with an asterisk', ok,
                   td[0] if td else 'is_trace not computed', construct='trace', line=f.node.lineno, nontrivial=False))
